@@ -281,7 +281,15 @@ CGEN_FUNCTIONS = ["constmap.c:hash:C_cm_hash", "cdb_hash.c:cdb_hash", "cdb_unpac
                   "received.c:safeput:K_safeput:chk", "fmtqfn.c:fmtqfn:K_fmtqfn:chk",
                   # a local structure (struct ip_address ip), &ip as a struct argument, the file-scope strallocs addr and liphost
                   # (stralloc_copys/append/cat/0), ipme_is() as an oracle over the run parameter g_ipme_: the SMTP address parser
-                  "qmail-smtpd.c:addrparse", "qmail-smtpd.c:addrparse:K_addrparse:chk"]
+                  "qmail-smtpd.c:addrparse", "qmail-smtpd.c:addrparse:K_addrparse:chk",
+                  # a whole program: main() of qmail-clean.c (file-scope substdio pointers as streams; getln = the next line of the input;
+                  # unlink = an oracle that logs its path and answers from a run parameter; memcmp; chdir/sig_pipeignore/cleanuppid outside)
+                  "qmail-clean.c:respond:C_clean_respond", "qmail-clean.c:main:C_clean_main",
+                  # a call through a function pointer parameter = the scripted write oracle (g_wr__script_: k >= 0 accepts min(k+1,len) bytes,
+                  # -1 EINTR, <= -2 error; accepted bytes go to g_wr__out_): the whole output side of substdio
+                  "substdo.c:allwrite", "substdo.c:substdio_flush", "substdo.c:substdio_bput", "substdo.c:substdio_put", "substdo.c:substdio_putflush",
+                  "substdo.c:allwrite:K_allwrite:chk", "substdo.c:substdio_flush:K_substdio_flush:chk", "substdo.c:substdio_bput:K_substdio_bput:chk",
+                  "substdo.c:substdio_put:K_substdio_put:chk", "substdo.c:substdio_putflush:K_substdio_putflush:chk"]
 
 def gen_params(srcdir):
     r = run([sys.executable, os.path.join(VERIF, "tools", "extract_params.py"), srcdir])
